@@ -32,6 +32,19 @@ int main()
     std::string fresh = run();
     std::string again = run();
     res["second-call-equals-first"] = fresh == again;
+    {   // history: a query parse, a block parse that reports errors, an unterminated comment
+        Document d2;
+        parse_XTA(MODEL, &d2, true);
+        const char* xml = "<?xml version=\"1.0\" encoding=\"utf-8\"?><nta><declaration>int i; clock x; chan ch; /* never closed</declaration>"
+                          "<template><name>P</name><location id=\"id0\"/><location id=\"id1\"/><init ref=\"id0\"/>"
+                          "<transition><source ref=\"id0\"/><target ref=\"id1\"/><label kind=\"guard\">x &gt; </label>"
+                          "<label kind=\"synchronisation\">ch</label><label kind=\"assignment\">i = 1, </label></transition></template>"
+                          "<system>system P</system></nta>";
+        Document d3;
+        try { parse_XML_buffer(xml, &d3, true); } catch (...) {}
+    }
+    std::string after = run();
+    res["call-after-mixed-block-parses-equals-fresh-call"] = fresh == after;
     UTAP::tracker.position = 0xFFFFFF00u;  // history: ~4 GiB of input parsed before
     std::string late = run();
     res["call-after-4GiB-history-equals-fresh-call"] = fresh == late;
